@@ -48,6 +48,8 @@ func quantSort(ty string) (string, Sort) {
 		return "Int", SRefO
 	case "heap":
 		return "Heap", SUnk
+	case "perm":
+		return "(Array Int Int)", SPerm
 	}
 	return "Int", SInt
 }
@@ -224,6 +226,8 @@ func (e *SpecEnv) eval(x Expr) SV {
 			return term(el, SVal)
 		case v.K == KTerm && v.S == SStr:
 			return term(fmt.Sprintf("(at %s %s)", v.T, i), SInt)
+		case v.K == KTerm && v.S == SPerm:
+			return term(fmt.Sprintf("(select %s %s)", v.T, i), SInt)
 		}
 		e.fail("cannot index %s", v.String())
 	case *ESlice:
@@ -347,6 +351,19 @@ func (e *SpecEnv) call(n *ECall) SV {
 			return term(v.Loc.Cell, SInt)
 		}
 		e.fail("cellid of %s", v.String())
+	case "mem":
+		// mem(s): the backing array of slice s as an SMT array
+		v := arg(0)
+		if v.K == KSlice || v.K == KArrPtr {
+			return term(fmt.Sprintf("(select (Mem %s) %s)", e.H, v.Arr), SUnk)
+		}
+		e.fail("mem of %s", v.String())
+	case "trlen":
+		return term(fmt.Sprintf("(TrLen %s)", e.H), SInt)
+	case "trA":
+		return term(fmt.Sprintf("(select (TrA %s) %s)", e.H, e.t(n.Args[0])), SVal)
+	case "trB":
+		return term(fmt.Sprintf("(select (TrB %s) %s)", e.H, e.t(n.Args[0])), SVal)
 	case "kindAt":
 		return term(fmt.Sprintf("(select (Kind %s) %s)", e.H, e.t(n.Args[0])), SInt)
 	case "allocated":
